@@ -1,8 +1,11 @@
 package router
 
 import (
+	"context"
 	"net/netip"
+	"time"
 
+	"github.com/IrineSistiana/mosproxy/internal/dnsmsg"
 	"github.com/IrineSistiana/mosproxy/internal/verifrt"
 )
 
@@ -67,4 +70,78 @@ func VerifH_C01_TCPGarbage() {
 	<-done
 	verifrt.Reach("ended")
 	verifrt.Assert(len(c.writes) == 0, "at most 4 octets of body can never be a DNS message: nothing is written")
+}
+
+// vShapelessUpstream returns a reply that DECODES but need not look like an answer to what was asked: 0, 1 or 2
+// questions (arbitrary one-label names, types, classes — a bare 12-octet header is what many servers send for FORMERR),
+// QR/TC/rcode arbitrary, 0..1 answers (TTL 60), optional OPT.
+type vShapelessUpstream struct{ calls int }
+
+func (u *vShapelessUpstream) ExchangeContext(ctx context.Context, q []byte) (*dnsmsg.Msg, error) {
+	u.calls++
+	m := dnsmsg.NewMsg()
+	m.Header.ID = verifrt.U16("shapeless.id")
+	m.Header.Response, m.Header.Truncated = verifrt.Bool("shapeless.qr"), verifrt.Bool("shapeless.tc")
+	m.Header.RCode = dnsmsg.RCode(verifrt.U16("shapeless.rcode") & 0xF)
+	nq := verifrt.Choose("shapeless.nq", 3)
+	for i := 0; i < nq; i++ {
+		qq := dnsmsg.NewQuestion()
+		qq.Name = vName("shapeless.qname", vShapes[1])
+		qq.Type, qq.Class = dnsmsg.Type(verifrt.U16("shapeless.qtype")), dnsmsg.Class(verifrt.U16("shapeless.qclass"))
+		m.Questions = append(m.Questions, qq)
+	}
+	if verifrt.Bool("shapeless.answer") {
+		a := vA("shapeless.an")
+		a.TTL = 60
+		m.Answers = append(m.Answers, a)
+	}
+	if verifrt.Bool("shapeless.opt") {
+		m.Additionals = append(m.Additionals, vRawFixed("shapeless.optrr", dnsmsg.TypeOPT, 0, 0))
+	}
+	return m, nil
+}
+func (u *vShapelessUpstream) Close() error { return nil }
+
+// VerifH_C01_RouterSurvivesAnyReply: "No byte sequence arriving … from an upstream as a reply makes the process panic":
+// above the transports, the request handler (rules, forwarding, cache store, EDNS0 fix-up, response packing) receives
+// ANY decodable reply — no question at all, a foreign question, two questions, any QR/TC/rcode — for a supported query
+// with or without OPT, cache on or off (harness clock): nothing panics, exactly one response comes out carrying the
+// query's ID, QR=1, RA=1 and RD, and it packs. A second query one second later (served from what the first one left in
+// the cache, or forwarded again) is handled just as well.
+func VerifH_C01_RouterSurvivesAnyReply() {
+	verifrt.Unwind(80)
+	verifrt.CtxNoExpiry = true
+	base := time.Unix(1700000000, 0)
+	offset := time.Duration(0)
+	verifrt.Redirect("time.Now", func() time.Time { return base.Add(offset) })
+	verifrt.Redirect("time.Until", func(t time.Time) time.Duration { return t.Sub(base.Add(offset)) })
+	verifrt.Redirect("time.Since", func(t time.Time) time.Duration { return base.Add(offset).Sub(t) })
+	up := &vShapelessUpstream{}
+	withCache := verifrt.Bool("cache")
+	r := vRouter([]*rule{{upstream: &upstreamWrapper{tag: "up", u: up}}}, withCache)
+	ask := func(id uint16) {
+		m := dnsmsg.NewMsg()
+		m.Header.ID, m.Header.RecursionDesired = id, true
+		q := dnsmsg.NewQuestion()
+		q.Name, q.Type, q.Class = dnsmsg.Name([]byte{1, 'q'}), 1, 1
+		m.Questions = append(m.Questions, q)
+		if verifrt.Bool("client.opt") {
+			m.Additionals = append(m.Additionals, vRawFixed("client.optrr", dnsmsg.TypeOPT, 0, 0))
+		}
+		rc := getRequestContext()
+		rc.RemoteAddr = netip.AddrPortFrom(netip.AddrFrom4([4]byte{198, 51, 100, 7}), 999)
+		r.handleServerReq(m, rc)
+		resp := rc.Response.Msg
+		verifrt.Assert(resp != nil, "a response is always produced")
+		verifrt.Assert(resp.ID == id && resp.Response && resp.RecursionAvailable && resp.RecursionDesired, "with the query's ID, QR=1, RA=1, RD")
+		b := mustHaveRespB(m, resp, dnsmsg.RCodeRefused, false, 1200)
+		verifrt.Assert(len(b) >= 12 && uint16(b[0])<<8|uint16(b[1]) == id, "and it packs")
+	}
+	ask(0x1111)
+	verifrt.Reach("first-answered")
+	if withCache {
+		offset = time.Second
+		ask(0x2222)
+		verifrt.Reach("second-answered")
+	}
 }
